@@ -1,6 +1,7 @@
 package main
 
 import (
+	"golang.org/x/tools/go/callgraph"
 	"os"
 	"go/constant"
 	"sync/atomic"
@@ -48,6 +49,8 @@ type Analysis struct {
 	pinnedOnce      sync.Once
 	pinned          map[string]string // table of the tree -> table of the pinned schema it stands for
 	errGlobals      map[*ssa.Global]bool
+	dynCalleeOnce   sync.Once
+	vta             *callgraph.Graph
 }
 
 func pathKind(p *Path) string {
